@@ -311,6 +311,31 @@ def fam_optimized_gradient(p):
                 yield (m.value(y) - fstar(m)) / dist2(x0, xs), "%s from %s" % (m.name, x0.tolist())
 
 
+def fam_gd_silver(p):
+    """gradient descent with the silver step-size schedule h_i = 1 + rho^(nu(i) - 1), rho = 1 + sqrt(2), nu = 2-adic valuation,
+    run for the documented number of steps: the largest 2^k - 1 that does not exceed n"""
+    L, n = p["L"], p["n"]
+    k = int(math.floor(math.log2(n + 1) + 1e-12))
+    n_eff = 2 ** k - 1
+    rho = 1 + math.sqrt(2)
+
+    def nu(i):
+        v_ = 0
+        while i % 2 == 0:
+            i //= 2
+            v_ += 1
+        return v_
+    h = [1 + rho ** (nu(i) - 1) for i in range(1, n_eff + 1)]
+    extra = [huber_extremal(L, hh / L, 1) for hh in sorted(set(h))] + [MEM.huber1(L, L * t_) for t_ in (0.1, 0.2, 0.35, 0.5, 0.7)]
+    for m in eligible("SmoothConvexFunction", {"L": L}, extra=extra):
+        for xs in m.stationary[:2]:
+            for x0 in starts_any(m, xs):
+                x = x0.copy()
+                for i in range(n_eff):
+                    x = x - h[i] / L * grad(m, x)
+                yield (m.value(x) - fstar(m)) / dist2(x0, xs), "%s from %s, %d steps" % (m.name, x0.tolist(), n_eff)
+
+
 def fam_exact_line_search(p):
     L, mu, n = p["L"], p["mu"], p["n"]
     Q0 = np.diag([mu, L])
@@ -809,6 +834,7 @@ FAMILIES = {
     # name -> (examples_table entry, family function)
     "gradient_descent": fam_gradient_descent,
     "gradient_descent_contraction": fam_gd_contraction,
+    "gradient_descent_silver_stepsize_convex": fam_gd_silver,
     "gradient_descent_quadratics": fam_gd_quadratics,
     "gradient_descent_qg_convex": fam_gd_qg,
     "subgradient_method_rsi_eb": fam_subgradient_rsi_eb,
